@@ -1,1 +1,1220 @@
+//! Program generator (DESIGN 2.4): a grammar over the instruction set with a light
+//! symbolic register model. Emits mostly well-formed instruction sequences that do real
+//! work plus, with configurable probability, hostile twists.
+//!
+//! Register conventions inside generated code:
+//!   r63 = pointer to the data section embedded after the code (`$is + data_off`)
+//!   r62 = base of a local writable frame of `FRAME` bytes (allocated with CFEI at entry)
+//!   r61 = loop counter, r60 = subroutine link register
+//!   r16..r23 = temporaries (pointers / lengths), r24..r47 = values
 
+#![allow(deprecated)]
+
+use crate::Rng;
+use fuel_asm::{
+    GMArgs,
+    GTFArgs,
+    Instruction,
+    RegId,
+    op,
+};
+use fuel_types::{
+    AssetId,
+    ContractId,
+};
+
+pub const R_DATA: u8 = 63;
+pub const R_LOC: u8 = 62;
+pub const R_CNT: u8 = 61;
+pub const R_LINK: u8 = 60;
+pub const FRAME: u32 = 1024;
+
+const ZERO: u8 = 0;
+const ONE: u8 = 1;
+const IS: u8 = 12; // RegId::IS
+const SP: u8 = 5;
+const HP: u8 = 7;
+const CGAS: u8 = 10;
+const BAL: u8 = 11;
+const RET: u8 = 13;
+const RETL: u8 = 14;
+const FLAG: u8 = 15;
+
+#[derive(Clone, Copy, Debug, PartialEq, Eq)]
+pub enum Mode {
+    Script,
+    Contract,
+    Predicate,
+}
+
+/// What the generated code may refer to.
+#[derive(Clone, Debug, Default)]
+pub struct Env {
+    /// contracts that can be called / queried (listed in the tx inputs)
+    pub contracts: Vec<ContractId>,
+    /// contract ids that exist but are not inputs, or do not exist at all
+    pub foreign_contracts: Vec<ContractId>,
+    pub assets: Vec<AssetId>,
+    pub blobs: Vec<[u8; 32]>,
+    /// number of variable outputs and index of the first one (for TRO)
+    pub variable_outputs: Vec<u16>,
+    /// number of tx inputs/outputs/witnesses (for GTF indices)
+    pub n_inputs: u16,
+    pub n_outputs: u16,
+    pub n_witnesses: u16,
+}
+
+/// Relative weights of the snippet families.
+#[derive(Clone, Debug)]
+pub struct Weights {
+    pub alu: u32,
+    pub mem: u32,
+    pub stack: u32,
+    pub heap: u32,
+    pub log: u32,
+    pub storage: u32,
+    pub call: u32,
+    pub money: u32,
+    pub query: u32,
+    pub crypto: u32,
+    pub introspect: u32,
+    pub flow: u32,
+    pub wide: u32,
+    /// per-mille probability of a hostile twist per snippet
+    pub hostile: u32,
+    /// per-mille probability that a random raw word is inserted
+    pub garbage: u32,
+}
+
+impl Default for Weights {
+    fn default() -> Self {
+        Self {
+            alu: 10,
+            mem: 10,
+            stack: 4,
+            heap: 4,
+            log: 5,
+            storage: 8,
+            call: 6,
+            money: 6,
+            query: 5,
+            crypto: 2,
+            introspect: 3,
+            flow: 6,
+            wide: 2,
+            hostile: 40,
+            garbage: 3,
+        }
+    }
+}
+
+/// `Rng` behind a `RefCell` so that draws can appear inside argument lists of `&mut self`
+/// calls.
+pub struct CellRng(std::cell::RefCell<Rng>);
+
+impl CellRng {
+    pub fn below(&self, n: u64) -> u64 {
+        self.0.borrow_mut().below(n)
+    }
+    pub fn usize_below(&self, n: usize) -> usize {
+        self.0.borrow_mut().usize_below(n)
+    }
+    pub fn u64(&self) -> u64 {
+        self.0.borrow_mut().u64()
+    }
+    pub fn u32(&self) -> u32 {
+        self.0.borrow_mut().u32()
+    }
+    pub fn u8(&self) -> u8 {
+        self.0.borrow_mut().u8()
+    }
+    pub fn word(&self) -> u64 {
+        self.0.borrow_mut().word()
+    }
+    pub fn bool(&self) -> bool {
+        self.0.borrow_mut().bool()
+    }
+    pub fn chance(&self, a: u64, b: u64) -> bool {
+        self.0.borrow_mut().chance(a, b)
+    }
+    pub fn pick<'b, T>(&self, xs: &'b [T]) -> &'b T {
+        &xs[self.usize_below(xs.len())]
+    }
+    pub fn arr<const N: usize>(&self) -> [u8; N] {
+        self.0.borrow_mut().arr()
+    }
+    pub fn id32(&self, pool: u64) -> [u8; 32] {
+        self.0.borrow_mut().id32(pool)
+    }
+}
+
+pub struct Gen<'a> {
+    pub rng: CellRng,
+    pub env: &'a Env,
+    pub mode: Mode,
+    pub w: Weights,
+    code: Vec<u32>,
+    data: Vec<u8>,
+    /// placeholder positions of `movi R_DATA, data_off` to patch
+    patch_data_off: Vec<usize>,
+}
+
+#[derive(Clone, Debug)]
+pub struct Program {
+    /// instructions followed by the data section
+    pub bytes: Vec<u8>,
+    pub code_len: usize,
+}
+
+fn w(i: Instruction) -> u32 {
+    u32::from(i)
+}
+
+impl<'a> Gen<'a> {
+    pub fn new(rng: &mut Rng, env: &'a Env, mode: Mode, weights: Weights) -> Self {
+        Self { rng: CellRng(std::cell::RefCell::new(Rng::new(rng.u64()))), env, mode, w: weights, code: vec![], data: vec![], patch_data_off: vec![] }
+    }
+
+    fn emit(&mut self, i: Instruction) {
+        self.code.push(w(i));
+    }
+    fn raw(&mut self, word: u32) {
+        self.code.push(word);
+    }
+    fn here(&self) -> usize {
+        self.code.len()
+    }
+
+    /// append to the data section (8-byte aligned), return offset inside the section
+    fn data(&mut self, b: &[u8]) -> u32 {
+        while self.data.len() % 8 != 0 {
+            self.data.push(0);
+        }
+        let off = self.data.len() as u32;
+        self.data.extend_from_slice(b);
+        off
+    }
+
+    fn val(&self) -> u8 {
+        24 + self.rng.below(24) as u8
+    }
+    fn tmp(&self) -> u8 {
+        16 + self.rng.below(8) as u8
+    }
+
+    /// load an arbitrary 64-bit constant
+    fn load_const(&mut self, r: u8, v: u64) {
+        if v < (1 << 18) {
+            self.emit(op::movi(r, v as u32));
+        } else {
+            // place in data and load
+            let off = self.data(&v.to_be_bytes());
+            self.ptr_data(r, off);
+            self.emit(op::lw(r, r, 0));
+        }
+    }
+
+    /// r = R_DATA + off
+    fn ptr_data(&mut self, r: u8, off: u32) {
+        if off < 4096 {
+            self.emit(op::addi(r, R_DATA, off as u16));
+        } else {
+            self.emit(op::movi(r, off & 0x3ffff));
+            self.emit(op::add(r, r, R_DATA));
+        }
+    }
+
+    /// r = R_LOC + off (off < FRAME)
+    fn ptr_loc(&mut self, r: u8, off: u32) {
+        self.emit(op::addi(r, R_LOC, (off & 0xfff) as u16));
+    }
+
+    fn interesting_value(&mut self, r: u8) {
+        let v = self.rng.word();
+        self.load_const(r, v);
+    }
+
+    fn hostile(&self) -> bool {
+        self.rng.below(1000) < self.w.hostile as u64
+    }
+
+    /// perturb a register holding a pointer or a length
+    fn twist(&mut self, r: u8) {
+        match self.rng.below(8) {
+            0 => self.emit(op::addi(r, r, 1)),
+            1 => self.emit(op::subi(r, r, 1)),
+            2 => self.emit(op::move_(r, SP)),
+            3 => self.emit(op::move_(r, HP)),
+            4 => {
+                let v = self.rng.word();
+                self.load_const(r, v)
+            }
+            5 => self.emit(op::move_(r, ZERO)),
+            6 => self.emit(op::subi(r, HP, 1)),
+            _ => self.emit(op::not(r, ZERO)),
+        }
+    }
+
+    fn prelude(&mut self) {
+        self.patch_data_off.push(self.here());
+        self.emit(op::movi(R_DATA, 0));
+        self.emit(op::add(R_DATA, R_DATA, IS));
+        self.emit(op::move_(R_LOC, SP));
+        self.emit(op::cfei(FRAME));
+        // most programs run with WRAPPING|UNSAFEMATH so that arithmetic corner cases set
+        // $of/$err instead of ending the run; the rest keep the strict default
+        if self.rng.below(10) < 7 {
+            self.emit(op::movi(16, 3));
+            self.emit(op::flag(16));
+        }
+        // fill a few value registers
+        let n = 3 + self.rng.below(6);
+        for _ in 0..n {
+            let r = self.val();
+            self.interesting_value(r);
+        }
+    }
+
+    fn alu(&mut self) {
+        let (d, a, b) = (self.val(), self.val(), self.val());
+        let imm = (self.rng.word() & 0xfff) as u16;
+        if self.rng.chance(1, 25) {
+            // set flags
+            let f = self.tmp();
+            self.emit(op::movi(f, self.rng.below(4) as u32));
+            self.emit(op::flag(f));
+        }
+        let i = match self.rng.below(34) {
+            0 => op::add(d, a, b),
+            1 => op::sub(d, a, b),
+            2 => op::mul(d, a, b),
+            3 => op::div(d, a, b),
+            4 => op::mod_(d, a, b),
+            5 => op::and(d, a, b),
+            6 => op::or(d, a, b),
+            7 => op::xor(d, a, b),
+            8 => op::not(d, a),
+            9 => op::sll(d, a, b),
+            10 => op::srl(d, a, b),
+            11 => op::eq(d, a, b),
+            12 => op::gt(d, a, b),
+            13 => op::lt(d, a, b),
+            14 => op::exp(d, a, b),
+            15 => op::mlog(d, a, b),
+            16 => op::mroo(d, a, b),
+            17 => op::mldv(d, a, b, self.val()),
+            18 => op::addi(d, a, imm),
+            19 => op::subi(d, a, imm),
+            20 => op::muli(d, a, imm),
+            21 => op::divi(d, a, imm),
+            22 => op::modi(d, a, imm),
+            23 => op::andi(d, a, imm),
+            24 => op::ori(d, a, imm),
+            25 => op::xori(d, a, imm),
+            26 => op::slli(d, a, imm & 0x7f),
+            27 => op::srli(d, a, imm & 0x7f),
+            28 => op::expi(d, a, imm & 0x1f),
+            29 => op::move_(d, a),
+            30 => op::movi(d, (self.rng.word() & 0x3ffff) as u32),
+            31 => op::noop(),
+            32 => {
+                let valid: Vec<u8> = (0..64u8)
+                    .filter(|i| fuel_asm::narrowint::MathArgs::from_imm(fuel_asm::Imm06::new(*i)).is_some())
+                    .collect();
+                let imm = if self.hostile() || valid.is_empty() { self.rng.below(64) as u8 } else { *self.rng.pick(&valid) };
+                op::niop(d, a, b, imm)
+            }
+            _ => op::andi(d, a, 0xff),
+        };
+        self.emit(i);
+        // keep execution alive: clear flags-dependent panics rarely matter; restore flags
+        if self.rng.chance(1, 12) {
+            self.emit(op::flag(ZERO));
+        }
+        if self.hostile() && self.rng.chance(1, 4) {
+            // write to a reserved register
+            let rd = self.rng.below(16) as u8;
+            self.emit(op::addi(rd, a, 1));
+        }
+    }
+
+    fn mem(&mut self) {
+        let v = self.val();
+        let p = self.tmp();
+        let off8 = (self.rng.below((FRAME / 8) as u64 - 8)) as u16;
+        match self.rng.below(12) {
+            0 => self.emit(op::sw(R_LOC, v, off8)),
+            1 => self.emit(op::lw(v, R_LOC, off8)),
+            2 => self.emit(op::sb(R_LOC, v, off8)),
+            3 => self.emit(op::lb(v, R_LOC, off8)),
+            4 => {
+                self.ptr_loc(p, (off8 as u32) & !7);
+                self.emit(op::mcli(p, self.rng.below(64) as u32));
+            }
+            5 => {
+                // copy between two disjoint halves of the frame
+                let q = self.tmp();
+                let len = self.rng.below(200) as u16;
+                self.ptr_loc(p, 0);
+                self.ptr_loc(q, 512);
+                if p != q {
+                    self.emit(op::mcpi(p, q, len));
+                }
+            }
+            6 => {
+                let (q, l) = (self.tmp(), self.tmp());
+                if p != q && q != l && p != l {
+                    self.ptr_loc(p, (self.rng.below(400)) as u32);
+                    self.ptr_loc(q, 512 + self.rng.below(100) as u32);
+                    self.emit(op::movi(l, self.rng.below(300) as u32));
+                    if self.hostile() {
+                        let t = [p, q, l][self.rng.usize_below(3)];
+                        self.twist(t);
+                    }
+                    match self.rng.below(3) {
+                        0 => self.emit(op::mcp(p, q, l)),
+                        1 => self.emit(op::meq(v, p, q, l)),
+                        _ => self.emit(op::mcl(p, l)),
+                    }
+                }
+            }
+            7 => {
+                // copy from the data section / tx bytes / code into the frame
+                let q = self.tmp();
+                if p != q {
+                    self.ptr_loc(p, 0);
+                    match self.rng.below(3) {
+                        0 => self.emit(op::move_(q, R_DATA)),
+                        1 => self.emit(op::move_(q, IS)),
+                        _ => self.emit(op::movi(q, self.rng.below(600) as u32)),
+                    }
+                    self.emit(op::mcpi(p, q, self.rng.below(128) as u16));
+                }
+            }
+            8 => {
+                // hostile-ish: write through an arbitrary pointer
+                self.ptr_loc(p, (off8 as u32 * 8) % (FRAME - 16));
+                if self.hostile() {
+                    self.twist(p);
+                }
+                self.emit(op::sw(p, v, 0));
+            }
+            9 => {
+                self.emit(op::shw(R_LOC, v, off8 & 0xff));
+                self.emit(op::lhw(v, R_LOC, off8 & 0xff));
+            }
+            10 => {
+                self.emit(op::sqw(R_LOC, v, off8 & 0xff));
+                self.emit(op::lqw(v, R_LOC, off8 & 0xff));
+            }
+            _ => {
+                // read from an arbitrary (possibly inaccessible) address
+                self.interesting_value(p);
+                if !self.hostile() {
+                    self.emit(op::move_(p, R_LOC));
+                }
+                self.emit(op::lw(v, p, 0));
+            }
+        }
+    }
+
+    fn stack(&mut self) {
+        match self.rng.below(6) {
+            0 => {
+                let n = (self.rng.below(64) * 8) as u32;
+                self.emit(op::cfei(n));
+                if !self.hostile() {
+                    self.emit(op::cfsi(n));
+                }
+            }
+            1 => {
+                let m = (self.rng.u64() & 0xff_ffff) as u32;
+                self.emit(op::pshl(m));
+                self.emit(op::popl(m));
+            }
+            2 => {
+                let m = (self.rng.u64() & 0xff_ffff) as u32 & !(0xf << 20); // keep r60..63
+                self.emit(op::pshh(m));
+                self.emit(op::poph(m));
+            }
+            3 => {
+                let r = self.tmp();
+                self.emit(op::movi(r, (self.rng.below(40) * 8) as u32));
+                self.emit(op::cfe(r));
+                self.emit(op::cfs(r));
+            }
+            4 => {
+                // shrink below the frame and regrow (memory must read back unchanged)
+                self.emit(op::cfsi(64));
+                self.emit(op::cfei(64));
+            }
+            _ => {
+                if self.hostile() {
+                    let r = self.tmp();
+                    self.interesting_value(r);
+                    if self.rng.bool() {
+                        self.emit(op::cfe(r));
+                    } else {
+                        self.emit(op::cfs(r));
+                    }
+                }
+            }
+        }
+    }
+
+    fn heap(&mut self) {
+        let n = self.tmp();
+        let v = self.val();
+        let size = match self.rng.below(6) {
+            0 => 0,
+            1 => 8,
+            2 => 32,
+            3 => self.rng.below(256) as u32,
+            4 => 1024,
+            _ => (self.rng.below(20) * 8) as u32,
+        };
+        self.emit(op::movi(n, size));
+        if self.hostile() && self.rng.chance(1, 3) {
+            self.interesting_value(n);
+        }
+        self.emit(op::aloc(n));
+        if size >= 8 {
+            self.emit(op::sw(HP, v, 0));
+            self.emit(op::lw(v, HP, 0));
+        }
+        if self.hostile() {
+            // write just below the heap pointer
+            let p = self.tmp();
+            self.emit(op::subi(p, HP, 8));
+            self.emit(op::sw(p, v, 0));
+        }
+    }
+
+    fn log(&mut self) {
+        let (a, b, c, d) = (self.val(), self.val(), self.val(), self.val());
+        match self.rng.below(3) {
+            0 => self.emit(op::log(a, b, c, d)),
+            1 => {
+                let (p, l) = (self.tmp(), self.tmp());
+                if p != l {
+                    self.ptr_loc(p, self.rng.below(512) as u32);
+                    self.emit(op::movi(l, self.rng.below(300) as u32));
+                    if self.hostile() {
+                        let t = if self.rng.bool() { p } else { l };
+                        self.twist(t);
+                    }
+                    self.emit(op::logd(a, b, p, l));
+                }
+            }
+            _ => {
+                let (p, l) = (self.tmp(), self.tmp());
+                if p != l {
+                    self.emit(op::move_(p, R_DATA));
+                    self.emit(op::movi(l, self.rng.below(64) as u32));
+                    self.emit(op::logd(a, b, p, l));
+                }
+            }
+        }
+    }
+
+    fn key_ptr(&mut self, r: u8) {
+        // few overlapping keys incl. the 2^256 boundary
+        let k: [u8; 32] = match self.rng.below(8) {
+            0 => [0u8; 32],
+            1 => [0xff; 32],
+            2 => {
+                let mut k = [0xff; 32];
+                k[31] = 0xfd;
+                k
+            }
+            n => {
+                let mut k = [0u8; 32];
+                k[31] = n as u8;
+                k
+            }
+        };
+        let off = self.data(&k);
+        self.ptr_data(r, off);
+    }
+
+    fn storage(&mut self) {
+        let (k, s, v) = (self.tmp(), self.val(), self.val());
+        let (p, l) = (self.tmp(), self.tmp());
+        if k == p || k == l || p == l {
+            return;
+        }
+        self.key_ptr(k);
+        if self.hostile() && self.rng.chance(1, 3) {
+            self.twist(k);
+        }
+        match self.rng.below(14) {
+            0 => self.emit(op::sww(k, s, v)),
+            1 => self.emit(op::srw(v, s, k, self.rng.below(6) as u8)),
+            2 => {
+                self.ptr_loc(p, (self.rng.below(8) * 32) as u32);
+                self.emit(op::movi(l, self.rng.below(4) as u32));
+                self.emit(op::swwq(k, s, p, l));
+            }
+            3 => {
+                self.ptr_loc(p, 256 + (self.rng.below(8) * 32) as u32);
+                self.emit(op::movi(l, self.rng.below(4) as u32));
+                self.emit(op::srwq(p, s, k, l));
+            }
+            4 => {
+                self.emit(op::movi(l, self.rng.below(4) as u32));
+                self.emit(op::scwq(k, s, l));
+            }
+            5 => {
+                self.emit(op::movi(l, self.rng.below(4) as u32));
+                self.emit(op::sclr(k, l));
+            }
+            6 => {
+                self.ptr_loc(p, self.rng.below(256) as u32);
+                self.emit(op::movi(l, self.rng.below(100) as u32));
+                self.emit(op::swrd(k, p, l));
+            }
+            7 => {
+                self.ptr_loc(p, self.rng.below(256) as u32);
+                self.emit(op::swri(k, p, self.rng.below(100) as u16));
+            }
+            8 => {
+                let o = self.val();
+                self.emit(op::movi(o, self.rng.below(40) as u32));
+                self.ptr_loc(p, 512);
+                self.emit(op::movi(l, self.rng.below(60) as u32));
+                self.emit(op::srdd(p, k, o, l));
+            }
+            9 => {
+                let o = self.val();
+                self.emit(op::movi(o, self.rng.below(40) as u32));
+                self.ptr_loc(p, 512);
+                self.emit(op::srdi(p, k, o, self.rng.below(64) as u8));
+            }
+            10 => {
+                let o = self.val();
+                if self.rng.bool() {
+                    self.emit(op::not(o, ZERO)); // append
+                } else {
+                    self.emit(op::movi(o, self.rng.below(40) as u32));
+                }
+                self.ptr_loc(p, self.rng.below(128) as u32);
+                self.emit(op::movi(l, self.rng.below(50) as u32));
+                self.emit(op::supd(k, p, o, l));
+            }
+            11 => {
+                let o = self.val();
+                self.emit(op::movi(o, self.rng.below(40) as u32));
+                self.ptr_loc(p, self.rng.below(128) as u32);
+                self.emit(op::supi(k, p, o, self.rng.below(64) as u8));
+            }
+            _ => self.emit(op::spld(v, k)),
+        }
+    }
+
+    fn contract_ptr(&mut self, r: u8) -> bool {
+        let foreign = !self.env.foreign_contracts.is_empty()
+            && ((self.env.contracts.is_empty() && self.rng.chance(1, 4)) || self.rng.chance(1, 25));
+        if !foreign && self.env.contracts.is_empty() {
+            // nothing to refer to: point at the local frame (32 zero/garbage bytes)
+            self.ptr_loc(r, 896);
+            return false;
+        }
+        let id = if foreign {
+            *self.rng.pick(&self.env.foreign_contracts)
+        } else if !self.env.contracts.is_empty() {
+            *self.rng.pick(&self.env.contracts)
+        } else {
+            ContractId::new(self.rng.arr())
+        };
+        let off = self.data(id.as_ref());
+        self.ptr_data(r, off);
+        !foreign
+    }
+
+    fn asset_ptr(&mut self, r: u8) {
+        let a = if self.env.assets.is_empty() || self.rng.chance(1, 12) {
+            AssetId::new(self.rng.arr())
+        } else {
+            *self.rng.pick(&self.env.assets)
+        };
+        let off = self.data(a.as_ref());
+        self.ptr_data(r, off);
+    }
+
+    fn call(&mut self) {
+        let (cs, amt, ap, g) = (16u8, 17u8, 18u8, 19u8);
+        let foreign = !self.env.foreign_contracts.is_empty() && self.rng.chance(1, 30);
+        let id = if foreign {
+            *self.rng.pick(&self.env.foreign_contracts)
+        } else if !self.env.contracts.is_empty() {
+            *self.rng.pick(&self.env.contracts)
+        } else {
+            return;
+        };
+        let mut st = id.as_ref().to_vec();
+        st.extend_from_slice(&self.rng.word().to_be_bytes());
+        st.extend_from_slice(&self.rng.word().to_be_bytes());
+        let off = self.data(&st);
+        self.ptr_data(cs, off);
+        // forwarded coins: mostly zero, sometimes small
+        match self.rng.below(4) {
+            0 => self.emit(op::movi(amt, self.rng.below(50) as u32)),
+            _ => self.emit(op::move_(amt, ZERO)),
+        }
+        self.asset_ptr(ap);
+        match self.rng.below(4) {
+            0 => self.emit(op::move_(g, CGAS)),
+            1 => self.emit(op::movi(g, self.rng.below(5000) as u32)),
+            2 => self.emit(op::not(g, ZERO)),
+            _ => self.emit(op::srli(g, CGAS, 1)),
+        }
+        if self.hostile() {
+            let t = [cs, amt, ap, g][self.rng.usize_below(4)];
+            self.twist(t);
+        }
+        self.emit(op::call(cs, amt, ap, g));
+        // use the results
+        if self.rng.bool() {
+            let v = self.val();
+            self.emit(op::move_(v, RET));
+            let v2 = self.val();
+            self.emit(op::move_(v2, RETL));
+            if self.rng.chance(1, 3) {
+                // read returned data (callee heap must be readable)
+                let l = self.tmp();
+                self.emit(op::move_(l, RETL));
+                self.emit(op::andi(l, l, 0xff));
+                self.emit(op::logd(ZERO, ZERO, RET, l));
+            }
+        }
+    }
+
+    fn money(&mut self) {
+        let (p, a, ap, q) = (16u8, 17u8, 18u8, 19u8);
+        let amount = match self.rng.below(12) {
+            0 => 0,
+            1..=5 => 1,
+            6..=9 => self.rng.below(6) as u32,
+            _ => self.rng.below(2000) as u32,
+        };
+        self.emit(op::movi(a, amount));
+        self.asset_ptr(ap);
+        let internal = self.mode == Mode::Contract;
+        let mut pick = self.rng.below(6);
+        if (pick == 2 || pick == 3) && !internal && !self.hostile() {
+            // mint / burn need an internal context
+            pick = if self.rng.bool() { 0 } else { 5 };
+        }
+        match pick {
+            0 => {
+                if !self.contract_ptr(p) && !self.hostile() {
+                    return;
+                }
+                if self.hostile() {
+                    self.twist(a);
+                }
+                self.emit(op::tr(p, a, ap));
+            }
+            1 => {
+                let addr: [u8; 32] = self.rng.id32(3);
+                let off = self.data(&addr);
+                self.ptr_data(p, off);
+                let oi = if !self.env.variable_outputs.is_empty() && !self.hostile() {
+                    *self.rng.pick(&self.env.variable_outputs) as u32
+                } else {
+                    self.rng.below(self.env.n_outputs as u64 + 2) as u32
+                };
+                self.emit(op::movi(q, oi));
+                self.emit(op::tro(p, q, a, ap));
+            }
+            2 | 3 => {
+                // mint / burn (internal context)
+                let sub: [u8; 32] = if self.rng.bool() { [0u8; 32] } else { self.rng.id32(2) };
+                let off = self.data(&sub);
+                self.ptr_data(p, off);
+                if self.rng.bool() {
+                    self.emit(op::mint(a, p));
+                } else {
+                    self.emit(op::burn(a, p));
+                }
+            }
+            4 => {
+                let rcpt: [u8; 32] = self.rng.id32(3);
+                let off = self.data(&rcpt);
+                self.ptr_data(p, off);
+                self.ptr_loc(q, 0);
+                let l = 20u8;
+                self.emit(op::movi(l, self.rng.below(64) as u32));
+                self.emit(op::smo(p, q, l, a));
+            }
+            _ => {
+                let v = self.val();
+                if !self.contract_ptr(p) && !self.hostile() {
+                    return;
+                }
+                self.emit(op::bal(v, ap, p));
+            }
+        }
+    }
+
+    fn query(&mut self) {
+        let (d, p, o, l) = (16u8, 17u8, 18u8, 19u8);
+        let v = self.val();
+        match self.rng.below(9) {
+            0 => {
+                if !self.contract_ptr(p) && !self.hostile() {
+                    return;
+                }
+                self.emit(op::csiz(v, p));
+            }
+            1 => {
+                if !self.contract_ptr(p) && !self.hostile() {
+                    return;
+                }
+                self.ptr_loc(d, 512);
+                self.emit(op::croo(d, p));
+            }
+            2 => {
+                if !self.contract_ptr(p) && !self.hostile() {
+                    return;
+                }
+                self.ptr_loc(d, 256);
+                self.emit(op::movi(o, self.rng.below(64) as u32));
+                self.emit(op::movi(l, self.rng.below(200) as u32));
+                if self.hostile() {
+                    let t = [d, o, l][self.rng.usize_below(3)];
+                    self.twist(t);
+                }
+                self.emit(op::ccp(d, p, o, l));
+            }
+            3 | 4 => {
+                if self.env.blobs.is_empty() && !self.hostile() {
+                    return;
+                }
+                let id = if self.env.blobs.is_empty() || self.rng.chance(1, 20) { self.rng.arr() } else { *self.rng.pick(&self.env.blobs) };
+                let off = self.data(&id);
+                self.ptr_data(p, off);
+                if self.rng.bool() {
+                    self.emit(op::bsiz(v, p));
+                } else {
+                    self.ptr_loc(d, 128);
+                    self.emit(op::movi(o, self.rng.below(40) as u32));
+                    self.emit(op::movi(l, self.rng.below(200) as u32));
+                    self.emit(op::bldd(d, p, o, l));
+                }
+            }
+            5 => {
+                let r = self.tmp();
+                self.emit(op::cb(R_LOC));
+                self.ptr_loc(r, 64);
+                self.emit(op::cb(r));
+            }
+            6 => {
+                let h = self.tmp();
+                self.emit(op::movi(h, self.rng.below(20) as u32));
+                if self.rng.bool() {
+                    self.emit(op::time(v, h));
+                } else {
+                    self.ptr_loc(d, 96);
+                    self.emit(op::bhsh(d, h));
+                }
+            }
+            7 => self.emit(op::bhei(v)),
+            _ => {
+                // LDC needs $ssp == $sp: only meaningful before the frame exists; emit
+                // rarely as a (usually failing) instruction
+                if self.hostile() {
+                    if !self.contract_ptr(p) && !self.hostile() {
+                    return;
+                }
+                    self.emit(op::movi(o, 0));
+                    self.emit(op::movi(l, 16));
+                    self.emit(op::ldc(p, o, l, self.rng.below(4) as u8));
+                }
+            }
+        }
+    }
+
+    fn crypto(&mut self) {
+        let (d, s, l) = (16u8, 17u8, 18u8);
+        self.ptr_loc(d, 640);
+        self.ptr_loc(s, self.rng.below(256) as u32);
+        self.emit(op::movi(l, self.rng.below(200) as u32));
+        match self.rng.below(5) {
+            0 => self.emit(op::s256(d, s, l)),
+            1 => self.emit(op::k256(d, s, l)),
+            2 => {
+                let m = 19u8;
+                self.ptr_loc(m, 320);
+                self.emit(op::eck1(d, s, m));
+            }
+            3 => {
+                let m = 19u8;
+                self.ptr_loc(m, 320);
+                self.emit(op::ecr1(d, s, m));
+            }
+            _ => {
+                let m = 19u8;
+                self.ptr_loc(m, 320);
+                self.emit(op::movi(l, self.rng.below(64) as u32));
+                self.emit(op::ed19(d, s, m, l));
+            }
+        }
+    }
+
+    fn introspect(&mut self) {
+        let v = self.val();
+        let i = self.tmp();
+        match self.rng.below(4) {
+            0 => {
+                let all = [GMArgs::IsCallerExternal, GMArgs::GetCaller, GMArgs::GetVerifyingPredicate, GMArgs::GetChainId, GMArgs::TxStart, GMArgs::BaseAssetId, GMArgs::GetGasPrice, GMArgs::GetOwner];
+                let ext = [GMArgs::GetChainId, GMArgs::TxStart, GMArgs::BaseAssetId, GMArgs::GetGasPrice];
+                let int = [GMArgs::IsCallerExternal, GMArgs::GetChainId, GMArgs::TxStart, GMArgs::BaseAssetId, GMArgs::GetGasPrice];
+                let s = if self.hostile() {
+                    *self.rng.pick(&all)
+                } else if self.mode == Mode::Contract {
+                    *self.rng.pick(&int)
+                } else {
+                    *self.rng.pick(&ext)
+                };
+                self.emit(op::gm_args(v, s));
+            }
+            1 => {
+                self.emit(op::movi(i, self.rng.below(self.env.n_inputs as u64 + 2) as u32));
+                let sel = [GTFArgs::Type, GTFArgs::ScriptGasLimit, GTFArgs::ScriptLength, GTFArgs::ScriptDataLength, GTFArgs::ScriptInputsCount, GTFArgs::ScriptOutputsCount, GTFArgs::ScriptWitnessesCount, GTFArgs::Script, GTFArgs::ScriptData, GTFArgs::ScriptInputAtIndex, GTFArgs::ScriptOutputAtIndex, GTFArgs::ScriptWitnessAtIndex, GTFArgs::TxLength, GTFArgs::InputType, GTFArgs::InputCoinOwner, GTFArgs::InputCoinAmount, GTFArgs::InputCoinAssetId, GTFArgs::InputContractId, GTFArgs::OutputType, GTFArgs::OutputCoinTo, GTFArgs::OutputCoinAmount, GTFArgs::WitnessDataLength, GTFArgs::WitnessData, GTFArgs::PolicyTypes, GTFArgs::PolicyMaxFee];
+                let s = *self.rng.pick(&sel);
+                self.emit(op::gtf_args(v, i, s));
+            }
+            2 if self.hostile() => {
+                self.emit(op::movi(i, self.rng.below(4) as u32));
+                self.emit(op::gtf(v, i, (self.rng.word() & 0xfff) as u16));
+            }
+            3 if self.hostile() => self.emit(op::gm(v, (self.rng.below(12)) as u32)),
+            _ => self.emit(op::gtf_args(v, ZERO, GTFArgs::ScriptData)),
+        }
+    }
+
+    fn wide(&mut self) {
+        let (d, a, b, c) = (16u8, 17u8, 18u8, 19u8);
+        self.ptr_loc(d, 768);
+        self.ptr_loc(a, 0);
+        self.ptr_loc(b, 64);
+        self.ptr_loc(c, 128);
+        use fuel_asm::{
+            Imm06,
+            wideint as wi,
+        };
+        let kind = self.rng.below(14);
+        let ok = |k: u64, i: u8| -> bool {
+            let im = Imm06::new(i);
+            match k {
+                0 | 1 => wi::CompareArgs::from_imm(im).is_some(),
+                2 | 3 => wi::MathArgs::from_imm(im).is_some(),
+                4 | 5 => wi::MulArgs::from_imm(im).is_some(),
+                6 | 7 => wi::DivArgs::from_imm(im).is_some(),
+                _ => true,
+            }
+        };
+        let valid: Vec<u8> = (0..64u8).filter(|i| ok(kind, *i)).collect();
+        let imm = if self.hostile() || valid.is_empty() { self.rng.below(64) as u8 } else { *self.rng.pick(&valid) };
+        let i = match kind {
+            0 => op::wdcm(self.val(), a, b, imm),
+            1 => op::wqcm(self.val(), a, b, imm),
+            2 => op::wdop(d, a, b, imm),
+            3 => op::wqop(d, a, b, imm),
+            4 => op::wdml(d, a, b, imm),
+            5 => op::wqml(d, a, b, imm),
+            6 => op::wddv(d, a, b, imm),
+            7 => op::wqdv(d, a, b, imm),
+            8 => op::wdmd(d, a, b, c),
+            9 => op::wqmd(d, a, b, c),
+            10 => op::wdam(d, a, b, c),
+            11 => op::wqam(d, a, b, c),
+            12 => op::wdmm(d, a, b, c),
+            _ => op::wqmm(d, a, b, c),
+        };
+        self.emit(op::movi(20, 3));
+        self.emit(op::flag(20));
+        self.emit(i);
+        self.emit(op::flag(ZERO));
+    }
+
+    /// loops / jumps / subroutines around a small body
+    fn flow(&mut self, depth: u32, in_sub: bool) {
+        let mut pick = self.rng.below(7);
+        if pick == 4 && in_sub {
+            // no nested subroutines: the single link register would be clobbered
+            pick = 1;
+        }
+        match pick {
+            0 => {
+                // counted loop with a backwards relative jump
+                let n = 1 + self.rng.below(5) as u32;
+                self.emit(op::movi(R_CNT, n));
+                let start = self.here();
+                self.body(1 + self.rng.below(3) as usize, depth + 1, in_sub);
+                self.emit(op::subi(R_CNT, R_CNT, 1));
+                let dist = (self.here() - start) as u32; // jump to `start`: pc - 4*(dist+1)... dist instructions back
+                // target = pc - 4*(imm+1) must be `start`, which is `dist` instructions back
+                if dist > 0 && dist < 4000 {
+                    self.emit(op::jnzb(R_CNT, ZERO, (dist - 1) as u16));
+                }
+            }
+            1 => {
+                // forward conditional skip
+                let c = self.val();
+                let at = self.here();
+                self.emit(op::noop()); // placeholder
+                self.body(1 + self.rng.below(3) as usize, depth + 1, in_sub);
+                let skip = (self.here() - at - 1) as u32; // pc + 4*(skip+1) lands after body
+                self.code[at] = w(op::jnzf(c, ZERO, (skip & 0xfff) as u16));
+            }
+            2 => {
+                // forward jump over a never-executed hostile block
+                let at = self.here();
+                self.emit(op::noop());
+                let n = self.rng.below(3);
+                for _ in 0..n {
+                    let g = self.rng.u32();
+                    self.raw(g);
+                }
+                let skip = (self.here() - at - 1) as u32;
+                self.code[at] = w(op::jmpf(ZERO, skip & 0x3ffff));
+            }
+            3 => {
+                // absolute jump to the next instruction (JI / JNEI / JNZI / JMP / JNE)
+                let target = (self.here() + 1) as u32;
+                match self.rng.below(5) {
+                    0 => self.emit(op::ji(target & 0xff_ffff)),
+                    1 => {
+                        let c = self.val();
+                        self.emit(op::jnzi(c, target & 0x3ffff))
+                    }
+                    2 => {
+                        let (a, b) = (self.val(), self.val());
+                        self.emit(op::jnei(a, b, (target & 0xfff) as u16))
+                    }
+                    3 => {
+                        let t = self.tmp();
+                        self.emit(op::movi(t, target + 1));
+                        self.emit(op::jmp(t));
+                    }
+                    _ => {
+                        let t = self.tmp();
+                        let (a, b) = (self.val(), self.val());
+                        self.emit(op::movi(t, target + 1));
+                        // spec operand order: jne $rA $rB $rC jumps to $rC if $rA != $rB
+                        self.emit(op::jne(a, b, t));
+                    }
+                }
+            }
+            4 => {
+                // subroutine: jump over it, then call it with JAL, return with JAL $zero
+                let at = self.here();
+                self.emit(op::noop());
+                let sub_start = self.here();
+                self.body(1 + self.rng.below(2) as usize, depth + 1, true);
+                self.emit(op::jal(ZERO, R_LINK, 0));
+                let skip = (self.here() - at - 1) as u32;
+                self.code[at] = w(op::jmpf(ZERO, skip & 0x3ffff));
+                // call: target = $is + 4*sub_start
+                let t = self.tmp();
+                self.emit(op::movi(t, (sub_start * 4) as u32));
+                self.emit(op::add(t, t, IS));
+                self.emit(op::jal(R_LINK, t, 0));
+            }
+            5 => {
+                // relative conditional with register-dynamic part zero
+                let (a, b) = (self.val(), self.val());
+                let at = self.here();
+                self.emit(op::noop());
+                self.body(1, depth + 1, in_sub);
+                let skip = (self.here() - at - 1) as u32;
+                self.code[at] = w(op::jnef(a, b, ZERO, (skip & 0x3f) as u8));
+            }
+            _ => {
+                if self.hostile() {
+                    // wild jump
+                    let t = self.tmp();
+                    self.interesting_value(t);
+                    match self.rng.below(4) {
+                        0 => self.emit(op::jmp(t)),
+                        1 => self.emit(op::jmpf(t, 0)),
+                        2 => self.emit(op::jmpb(t, 0)),
+                        _ => self.emit(op::jal(self.val(), t, 0)),
+                    }
+                }
+            }
+        }
+    }
+
+    fn snippet(&mut self, depth: u32, in_sub: bool) {
+        if self.rng.below(1000) < self.w.garbage as u64 {
+            let g = self.rng.u32();
+            self.raw(g);
+            return;
+        }
+        let internal = self.mode == Mode::Contract;
+        let pred = self.mode == Mode::Predicate;
+        let wt = self.w.clone();
+        let table: [(u32, u8); 13] = [
+            (wt.alu, 0),
+            (wt.mem, 1),
+            (wt.stack, 2),
+            (wt.heap, 3),
+            (if pred { 0 } else { wt.log }, 4),
+            (if internal { wt.storage } else if pred { 0 } else { wt.storage / 20 }, 5),
+            (if pred || in_sub { 0 } else { wt.call }, 6),
+            (if pred { 0 } else { wt.money }, 7),
+            (if pred { wt.query / 4 } else { wt.query }, 8),
+            (wt.crypto, 9),
+            (wt.introspect, 10),
+            (if depth < 2 { wt.flow } else { 0 }, 11),
+            (wt.wide, 12),
+        ];
+        let total: u32 = table.iter().map(|t| t.0).sum();
+        let mut x = self.rng.below(total.max(1) as u64) as u32;
+        let mut pick = 0u8;
+        for (wgt, id) in table {
+            if x < wgt {
+                pick = id;
+                break;
+            }
+            x -= wgt;
+        }
+        match pick {
+            0 => self.alu(),
+            1 => self.mem(),
+            2 => self.stack(),
+            3 => self.heap(),
+            4 => self.log(),
+            5 => self.storage(),
+            6 => self.call(),
+            7 => self.money(),
+            8 => self.query(),
+            9 => self.crypto(),
+            10 => self.introspect(),
+            11 => self.flow(depth, in_sub),
+            _ => self.wide(),
+        }
+    }
+
+    fn body(&mut self, n: usize, depth: u32, in_sub: bool) {
+        for _ in 0..n {
+            self.snippet(depth, in_sub);
+        }
+    }
+
+    fn ending(&mut self) {
+        let v = self.val();
+        match self.rng.below(10) {
+            0..=4 => {
+                if self.mode == Mode::Predicate {
+                    self.emit(op::ret(ONE));
+                } else {
+                    self.emit(op::ret(v));
+                }
+            }
+            5 | 6 => {
+                let (p, l) = (16u8, 17u8);
+                if self.rng.bool() {
+                    self.ptr_loc(p, self.rng.below(256) as u32);
+                } else {
+                    // return freshly allocated heap data
+                    self.emit(op::movi(l, 64));
+                    self.emit(op::aloc(l));
+                    self.emit(op::sw(HP, v, 0));
+                    self.emit(op::move_(p, HP));
+                }
+                self.emit(op::movi(l, self.rng.below(64) as u32));
+                if self.mode == Mode::Predicate {
+                    self.emit(op::ret(ONE));
+                } else {
+                    self.emit(op::retd(p, l));
+                }
+            }
+            7 => {
+                if self.mode == Mode::Predicate {
+                    self.emit(op::ret(ZERO));
+                } else {
+                    self.emit(op::rvrt(v));
+                }
+            }
+            8 => self.emit(op::ret(ONE)),
+            _ => { /* fall off the end of the code */ }
+        }
+    }
+
+    pub fn finish(mut self) -> Program {
+        // pad code so the data section starts 8-aligned
+        if self.code.len() % 2 != 0 {
+            self.code.push(w(op::noop()));
+        }
+        let code_len = self.code.len() * 4;
+        for at in self.patch_data_off.clone() {
+            self.code[at] = w(op::movi(R_DATA, (code_len as u32) & 0x3ffff));
+        }
+        let mut bytes: Vec<u8> = self.code.iter().flat_map(|wd| wd.to_be_bytes()).collect();
+        bytes.extend_from_slice(&self.data);
+        while bytes.len() % 8 != 0 {
+            bytes.push(0);
+        }
+        Program { bytes, code_len }
+    }
+}
+
+/// Generate a program with `n` top-level snippets.
+pub fn generate(rng: &mut Rng, env: &Env, mode: Mode, weights: Weights, n: usize) -> Program {
+    let mut g = Gen::new(rng, env, mode, weights);
+    g.prelude();
+    g.body(n, 0, false);
+    g.ending();
+    // safety net after the ending so that falling through still terminates
+    g.emit(op::ret(ONE));
+    g.finish()
+}
+
+/// Uniformly random bytes with a bias towards defined opcodes (C29).
+pub fn random_bytes_program(rng: &mut Rng, n_instr: usize) -> Vec<u8> {
+    let mut out = Vec::with_capacity(n_instr * 4);
+    for _ in 0..n_instr {
+        let mut wd = rng.u32();
+        if rng.below(10) < 7 {
+            // choose a defined opcode byte by rejection
+            loop {
+                let b = rng.u8();
+                if fuel_asm::Opcode::try_from(b).is_ok() {
+                    wd = (wd & 0x00ff_ffff) | ((b as u32) << 24);
+                    break;
+                }
+            }
+            if rng.bool() {
+                // small register numbers / zero low bits help validity
+                wd &= 0xff_fff_000 | rng.u32();
+            }
+        }
+        out.extend_from_slice(&wd.to_be_bytes());
+    }
+    out
+}
+
+pub fn disasm(bytes: &[u8], max: usize) -> Vec<String> {
+    bytes
+        .chunks(4)
+        .take(max)
+        .map(|c| {
+            if c.len() < 4 {
+                return format!("{c:02x?}");
+            }
+            match Instruction::try_from([c[0], c[1], c[2], c[3]]) {
+                Ok(i) => format!("{i:?}"),
+                Err(_) => format!("INVALID {:08x}", u32::from_be_bytes([c[0], c[1], c[2], c[3]])),
+            }
+        })
+        .collect()
+}
+
+#[allow(dead_code)]
+fn _unused() {
+    let _ = (BAL, FLAG, RegId::ZERO);
+}
